@@ -398,6 +398,19 @@ impl<'a> World<'a> {
         } else {
             (op, sig_genuine, addr_ok)
         };
+        // the re-parented forgery: same value, source, address and signature, another children set
+        // (an open register checks no signature, a re-parented op is then simply another valid op with other
+        // parents: not forged there, the op stays as written)
+        let (op, sig_genuine) = if kind == Kind::Reparented && !self.anyone {
+            let mut v = serde_json::to_value(&op).expect("op to json");
+            let had_children = v["crdt_op"]["children"].as_array().map(|a| !a.is_empty()).unwrap_or(false);
+            v["crdt_op"]["children"] = if had_children { serde_json::json!([]) } else { serde_json::json!([vec![7u8; 32]]) };
+            let forged = serde_json::from_value::<RegisterOp>(v).expect("op from json");
+            assert!(forged != op, "re-parenting must change the op");
+            (forged, false)
+        } else {
+            (op, sig_genuine)
+        };
         let facts = OpFacts {
             source_actor,
             source_authorised: source_actor < self.n_auth,
@@ -416,6 +429,7 @@ impl<'a> World<'a> {
                 Kind::ForeignOwner => "foreign_owner",
                 Kind::Oversized => "oversized",
                 Kind::Readdressed => "readdressed_from_another_register",
+                Kind::Reparented => "reparented_children_rewritten",
             },
         };
         let canon = match self.index.get(&op) {
